@@ -100,10 +100,13 @@ def r03a(ctx, run):
                 # jumps fed by this lookup
                 jumps = []
                 for c in fn.calls():
-                    if short(c.callee) == "jump" and "cranelift" in c.callee and len(c.args) >= 2:
-                        ch = fn.chain_operand(c.args[1], depth=10)
-                        if any(x.get("kind") == "call" and x.get("ln") == lk.ln and short(x["callee"]) == "index" for x in walk_chain(ch)):
-                            jumps.append(c)
+                    # every instruction that transfers control to a block: jump(block, ..), brif(cond, then, .., else, ..), Switch::set_entry(_, block), emit(.., default)
+                    if short(c.callee) in ("jump", "brif", "set_entry", "emit") and ("cranelift" in c.callee) and len(c.args) >= 2:
+                        for a_ in c.args[1:]:
+                            ch = fn.chain_operand(a_, depth=10)
+                            if any(x.get("kind") == "call" and x.get("ln") == lk.ln and short(x["callee"]) == "index" for x in walk_chain(ch)):
+                                jumps.append(c)
+                                break
                 if not jumps:
                     run.finding(owner, "lookup-unused:%s" % field, lk.file, lk.ln, "scope target looked up in self.%s but no jump uses it (analysis lost the flow)" % field)
                     continue
@@ -119,7 +122,7 @@ def r03a(ctx, run):
                     heads = {h for h, _ in unw} | helper_blocks
                     unw = unw or ([("call", helper_blocks)] if helper_blocks else [])
                     reach_without = fn.can_reach(lk.bb, j.bb, avoid=heads) or lk.bb == j.bb
-                    what = "%s: jump to self.%s[label] (lookup line %d, jump line %d)" % (short(owner), field, lk.ln, j.ln)
+                    what = "%s: %s to self.%s[label] (lookup line %d, branch line %d)" % (short(owner), short(j.callee), field, lk.ln, j.ln)
                     if unw and not reach_without:
                         run.ok(j.site(), what + " passes the defer unwinder (at bb%s) on every path" % sorted(heads, key=str))
                     else:
